@@ -160,6 +160,30 @@ namespace
         LeafState* st;
     };
 
+    // node-only *composable* leaf: arrays reach it through the traits' default fallbacks of both the
+    // throwing and the composable interface (one node of count*size bytes each way)
+    class MinCompLeaf : public MinLeaf
+    {
+    public:
+        explicit MinCompLeaf(LeafState* s = nullptr) : MinLeaf(s) {}
+        void* try_allocate_node(std::size_t size, std::size_t align) noexcept
+        {
+            ++st->calls;
+            if (st->live + size > st->cap_bytes)
+                return nullptr;
+            st->live += size;
+            return Slab::get().allocate(st->owner, false, 1, size, align);
+        }
+        bool try_deallocate_node(void* p, std::size_t size, std::size_t align) noexcept
+        {
+            auto b = Slab::get().find_block(p);
+            if (!b || b->owner != st->owner)
+                return false;
+            deallocate_node(p, size, align);
+            return true;
+        }
+    };
+
     //=== tracker ===//
     struct TrackEvent
     {
@@ -362,7 +386,7 @@ namespace
         // MinLeaf and binary_segregator report the traits default (alignof(max_align_t))
         size_t mina16 = mina > alignof(std::max_align_t) ? alignof(std::max_align_t) : mina;
         std::unique_ptr<IComp> c;
-        switch (idx % 22)
+        switch (idx % 24)
         {
         case 0:
             c.reset(new CompOf<FB01>("fallback<L0,L1>", 1, L0(l(0)), L1(l(1))));
@@ -493,6 +517,18 @@ namespace
             c->thresholds[0] = t0;
             break;
         }
+        case 22:
+        {
+            using A = fm::fallback_allocator<MinCompLeaf, L1>;
+            c.reset(new CompOf<A>("fallback<MinComp,L1>", 1, MinCompLeaf(l(0)), L1(l(1))));
+            c->is_fallback = true;
+            break;
+        }
+        case 23:
+            c.reset(new CompOf<fm::aligned_allocator<MinCompLeaf>>("aligned<MinComp>", 1, mina16,
+                                                                    MinCompLeaf(l(0))));
+            c->min_align = mina16;
+            break;
         case 20:
         {
             // the tracked allocator is the *default* of a fallback: it is asked to take back blocks
@@ -928,9 +964,45 @@ namespace
             ++n_typed;
             ++n_typed_throw;
         }
+        // array helpers over a node-only leaf (traits' default array fallbacks), lengths 0..5
+        void typed_min(unsigned how, size_t n)
+        {
+            auto&      slab = Slab::get();
+            LeafState& ls   = env.leaves[3];
+            MinLeaf    leaf(&ls);
+            size_t     log0 = slab.log().size();
+            using T         = Obj<24, 8>;
+            const char* what = how % 2 ? "allocate_unique_array/node-only" : "std_allocator/node-only";
+            if (how % 2)
+            {
+                auto up = fm::allocate_unique<T[]>(leaf, n);
+                (void)up;
+            }
+            else
+            {
+                fm::std_allocator<T, MinLeaf> sa(leaf);
+                T* p = sa.allocate(n);
+                sa.deallocate(p, n);
+            }
+            std::string tag = std::string("typed-") + what;
+            if (slab.last_error())
+                fail(tag, std::string(slab.last_error()) + " (array of " + std::to_string(n) + " elements)");
+            else if (slab.log().size() != log0 + 2)
+                fail(tag, "expected one allocation and one release");
+            else if (slab.log()[log0].count * slab.log()[log0].size < n * sizeof(T))
+                fail(tag, "leaf request smaller than the array");
+            else if (ls.live != 0)
+                fail(tag, "memory left outstanding");
+            ++n_typed;
+        }
         void op_typed(const Op& op)
         {
             size_t n = 1 + op.c % 5;
+            if (op.a % 14 == 13)
+            {
+                typed_min(op.b, op.c % 6);
+                return;
+            }
             if (op.a % 13 >= 9)
             {
                 switch (op.a % 13)
@@ -1021,7 +1093,7 @@ namespace
             if (prop == "C09")
                 env.leaves[0].cap_bytes = P(5) % 3 ? size_t(1) << 22 : caps[P(5) % 6];
             env.leaves[3].cap_bytes = size_t(1) << 24;
-            if (P(7) % 3 == 1 && P(0) % 22 != 15)
+            if (P(7) % 3 == 1 && P(0) % 24 != 15)
             {
                 // the maxima of the leaves move with use (documented for static_allocator,
                 // iteration_allocator, memory_stack). Recorded finding F16: memory_resource_adapter
@@ -1030,11 +1102,11 @@ namespace
                     env.leaves[i].shrinking = true;
                 ci.classes.insert("moving-maxima");
             }
-            if (vf::allow_known("F16") && P(0) % 22 == 15)
+            if (vf::allow_known("F16") && P(0) % 24 == 15)
                 env.leaves[0].shrinking = true; // probe program of F16 only
-            if (P(0) % 22 == 15 && vf::allow_known("F16"))
+            if (P(0) % 24 == 15 && vf::allow_known("F16"))
                 env.leaves[0].cap_bytes = 30000;
-            else if (P(0) % 22 == 15)
+            else if (P(0) % 24 == 15)
             {
                 // memory_resource_adapter: a small max_node_size so that requests straddle it
                 static const size_t mx[] = {64, 100, 256, 1000, size_t(1) << 22};
